@@ -116,6 +116,7 @@ type sharedSchema struct {
 	Schema omniparser.Schema
 	cap    *capture
 	Text   string
+	ref    string // dump taken right after validation
 }
 
 func newSchema(name, text string) (*sharedSchema, error) {
@@ -137,6 +138,7 @@ func newSchema(name, text string) (*sharedSchema, error) {
 		return nil, err
 	}
 	ss.Schema = s
+	ss.ref = ss.dump()
 	return ss, nil
 }
 
@@ -399,7 +401,16 @@ func buildWorkload(sum *vh.Summary) *workload {
 }
 
 // one concurrent mix; returns failures (what, detail) and the per-goroutine record-node ID sequences
-func runMix(r *vh.Rng, w *workload, tier string) (desc mixDesc, fails [][2]string, seqs [][]int64, c0, c1 int64) {
+func runMix(r *vh.Rng, w0 *workload, tier string) (desc mixDesc, fails [][2]string, seqs [][]int64, c0, c1 int64) {
+	// Fresh Schema objects for the concurrent phase: their FIRST use is concurrent, so state that
+	// is written lazily on first use is exercised (and raced) as well; the alone runs use another
+	// fresh set afterwards.
+	w := buildWorkload(nil)
+	wAlone := buildWorkload(nil)
+	if len(w.schemas) != len(w0.schemas) || len(wAlone.schemas) != len(w0.schemas) {
+		fails = append(fails, [2]string{"workload schemas could not be rebuilt", ""})
+		return
+	}
 	desc.Procs = []int{1, 2, 16}[r.Pick(3)]
 	desc.Goroutines = r.Between(2, 16)
 	desc.NodePool = r.Chance(0.6)
@@ -437,18 +448,7 @@ func runMix(r *vh.Rng, w *workload, tier string) (desc mixDesc, fails [][2]strin
 		v21.VerifSetDisableCaching(false)
 		v21.VerifResetCaches(0, 0)
 	}
-	// ---- alone, beforehand ----
 	expected := make([][][]string, desc.Goroutines)
-	before := make([]string, len(w.schemas))
-	for i, s := range w.schemas {
-		before[i] = s.dump()
-	}
-	for g := range desc.Jobs {
-		for _, j := range desc.Jobs[g] {
-			tr, _ := runJob(w.schemas[j.Schema], j.Input)
-			expected[g] = append(expected[g], tr)
-		}
-	}
 	// ---- concurrently ----
 	idr.VerifResetNodePool()
 	c0 = idr.VerifNodeIDCounter()
@@ -478,6 +478,13 @@ func runMix(r *vh.Rng, w *workload, tier string) (desc mixDesc, fails [][2]strin
 		return
 	}
 	c1 = idr.VerifNodeIDCounter()
+	// ---- each transform alone (fresh Schema objects, nothing else running) ----
+	for g := range desc.Jobs {
+		for _, j := range desc.Jobs[g] {
+			tr, _ := runJob(wAlone.schemas[j.Schema], j.Input)
+			expected[g] = append(expected[g], tr)
+		}
+	}
 	for g := range got {
 		for k := range got[g] {
 			if !reflect.DeepEqual(got[g][k], expected[g][k]) {
@@ -486,9 +493,11 @@ func runMix(r *vh.Rng, w *workload, tier string) (desc mixDesc, fails [][2]strin
 			}
 		}
 	}
-	for i, s := range w.schemas {
-		if s.dump() != before[i] {
-			fails = append(fails, [2]string{"validated declarations / format runtime of schema " + s.Name + " changed while transforms ran", ""})
+	for _, ws := range []*workload{w, wAlone} {
+		for _, s := range ws.schemas {
+			if s.dump() != s.ref {
+				fails = append(fails, [2]string{"validated declarations / format runtime of schema " + s.Name + " are not what they were right after validation: a transform wrote to the schema", ""})
+			}
 		}
 	}
 	return
@@ -527,6 +536,7 @@ func reset() {
 // ---- the race-detector child --------------------------------------------------------------------------
 
 var raceChild = flag.Bool("race-child", false, "run the workload only (this binary was built with -race)")
+var worker = flag.Bool("worker", false, "do the work in this process (the parent survives a fatal runtime error of the worker)")
 
 func buildAndRunRace(o *vh.Opts, sum *vh.Summary, mixes int) {
 	exe, err := os.Executable()
@@ -599,6 +609,36 @@ func main() {
 		reset()
 		fmt.Printf("race child: %d mixes, %d transcript/dump failures\n", n, bad)
 		return
+	}
+	if !*worker {
+		// Unsynchronised access to a Go map or a corrupted runtime is a FATAL error that recover()
+		// cannot catch: the work runs in a child so that such a death is reported as a failure of
+		// the property with the seed that reproduces it.
+		exe, err := os.Executable()
+		if err == nil {
+			cmd := exec.Command(exe, append(append([]string{}, os.Args[1:]...), "-worker")...)
+			out, werr := cmd.CombinedOutput()
+			if werr == nil {
+				os.Stdout.Write(out)
+				return
+			}
+			if _, serr := os.Stat(filepath.Join(o.Out, "summary.json")); serr != nil || true {
+				sum := vh.NewSummary("C14", o, "worker process died")
+				text := string(out)
+				if i := strings.Index(text, "fatal error:"); i >= 0 {
+					text = text[i:]
+				} else if i := strings.Index(text, "panic:"); i >= 0 {
+					text = text[i:]
+				}
+				if len(text) > 6000 {
+					text = text[:6000]
+				}
+				sum.Fail("the process died with a fatal runtime error while transforms ran concurrently (unsynchronised access to shared state)",
+					map[string]interface{}{"seed": o.Seed, "tier": o.Tier, "n": o.N}, text)
+				sum.Write(o)
+				return
+			}
+		}
 	}
 	sum := vh.NewSummary("C14", o,
 		"concurrent mixes: N in 2..16 goroutines, each driving 1..3 Transforms over shared Schema objects (seven formats, javascript, xpath with regexps/dynamic xpaths/templates), GOMAXPROCS in {1,2,16}, node pool on/off, JS caches default/capacity one/off; non-trivial = at least two goroutines share one Schema object (always); distinct by (config, jobs)")
